@@ -6,6 +6,7 @@ Oracle: the definition evaluated with long-double DFT matrices.
 """
 import itertools
 import sys
+import math
 
 import numpy as np
 
@@ -39,6 +40,9 @@ def gen_cases(tier, seed):
     for N in (8, 9):
         for dt in ("float32", "float64", "int16"):
             yield {"kind": "sched", "N": N, "dtype": dt, "bound": 1 if tier == "quick" else 2}
+    for N in (4096, 4099, 131072) if tier == "quick" else (4096, 4099, 65537, 131072, 1000003):
+        for dt in ("float32", "float64", "int16"):
+            yield {"kind": "long", "N": N, "dtype": dt}
 
 
 _R = {}
@@ -266,7 +270,56 @@ def f_rtc(x):
 _check_case_grid = check_case
 
 
+def long_case(case, res):
+    """Long axes (accuracy must not degrade with the sample index) and the ways of passing the axis (keyword / positional)."""
+    N, dt = case["N"], np.dtype(case["dtype"])
+    f = pb.utils.real_to_complex
+    rng = np.random.default_rng(19)
+    x = rng.uniform(-1, 1, (2, N))
+    if dt.kind == "i":
+        x = np.round(x * 1000)
+    x = x.astype(dt)
+    xd = x.astype(np.float64)
+    # float64 FFT evaluation of the definition (analytic signal, mixed down by a quarter of the rate, every second sample)
+    X = np.fft.fft(xd, axis=1)
+    h = np.zeros(N)
+    h[0] = 1
+    h[1:(N + 1) // 2] = 2
+    if N % 2 == 0:
+        h[N // 2] = 1
+    a = np.fft.ifft(X * h[None, :], axis=1)[:, 0::2]
+    ref = a * np.array([(-1) ** m for m in range(a.shape[1])])[None, :]
+    eps = float(np.finfo(np.float32 if dt == np.float32 else np.float64).eps)
+    # + the double-precision rounding of the mixing phase pi/2 * n itself (the library evaluates exp(-i pi n / 2) in double)
+    tol = (256 * eps * (1 + math.log2(N)) + 8 * math.pi * N * float(np.finfo(np.float64).eps)) * float(np.max(np.abs(xd)))
+    outs = {"axis=1 (keyword)": lambda: f(x, axis=1), "1 (positional)": lambda: f(x, 1), "axis=-1": lambda: f(x, axis=-1),
+            "transposed, default axis": lambda: f(np.ascontiguousarray(x.T)).T, "transposed, 0 (positional)": lambda: f(np.ascontiguousarray(x.T), 0).T}
+    for nm, fn in outs.items():
+        res.transitions += 1
+        res.traces += 1
+        res.state(("long", N, str(dt), nm))
+        try:
+            out = np.asarray(fn())
+        except Exception as e:
+            res.violation("real_to_complex|long|raised", f"{nm}: {type(e).__name__}: {e}", case, {"form": nm})
+            continue
+        if out.shape != ref.shape:
+            res.violation("real_to_complex|long|shape", f"{nm}: shape {out.shape}, expected {ref.shape}", case, {"form": nm})
+            continue
+        e = float(np.max(np.abs(out - ref)))
+        if not res.ratio("long-axis err / budget", e, tol):
+            res.violation("real_to_complex|long|values", f"N={N} {dt} ({nm}): max |out - definition| = {e:.3g} (budget {tol:.3g}); "
+                          f"the error grows with the sample index", case, {"form": nm})
+            continue
+        res.hits["long axis"] += 1
+    res.sample({"long": N, "dtype": str(dt)}, 1)
+
+
 def check_case(case):          # noqa: F811 - dispatch on the case kind
+    if case.get("kind") == "long":
+        res = report.Result()
+        long_case(case, res)
+        return res
     if case.get("kind") == "sched":
         res = report.Result()
         sched_case(case, res)
@@ -277,7 +330,7 @@ def check_case(case):          # noqa: F811 - dispatch on the case kind
 def main(argv=None):
     return report.run_check(
         PID, gen_cases=gen_cases, check_case=check_case, describe=describe,
-        required_hits=["N = 0", "N = 1", "non-contiguous input", "zero-length other axis", "concurrent same-shape calls explored", "negative axis", "middle axis of rank 3", "complex refused", "empty complex input refused", "tone mapped"],
+        required_hits=["N = 0", "N = 1", "non-contiguous input", "zero-length other axis", "concurrent same-shape calls explored", "negative axis", "middle axis of rank 3", "complex refused", "empty complex input refused", "tone mapped", "long axis"],
         assumptions=["budget 8 eps max(N,4) max|x| with eps = single precision for float16/float32 input (scipy.fft computes half-precision input in single precision) and double otherwise"],
         argv=argv)
 
